@@ -219,6 +219,41 @@ pub fn execute_c10(plan: &Plan) -> Outcome {
                 let idle: i64 = if (plan.extra["udp_history"].as_u64().unwrap_or(0)) == 1 && kind != "type" { [3i64, 20, 29, 31, 33, 45, 64, 90, 125, 200][(plan.seed / 12 % 10) as usize] } else { 0 };
                 let age = delta - idle;
                 let expect = age.abs() <= limit && type_byte == 0;
+                // every third sweep of the other kind: the request is *begun* when it is sealed (its authenticated beginning - the
+                // VMess auth id, the Shadowsocks 2022 salt and fixed-length header - arrives at once) and is completed `stall` seconds
+                // later. A token that has run out by the time the request is complete (when the server would dial) must not be
+                // honoured; a request that is valid at both moments must be served. (Not valid yet at the beginning, valid at the
+                // end: either answer is in order, nothing is demanded.)
+                let stall: i64 = if (plan.extra["udp_history"].as_u64().unwrap_or(0)) == 2 && kind != "type" { [3i64, 20, 29, 31, 33, 45, 64, 90, 125, 200][(plan.seed / 12 % 10) as usize] } else { 0 };
+                if stall > 0 {
+                    let begin_ok = delta.abs() <= limit;
+                    let end_ok = (delta - stall).abs() <= limit;
+                    let begin = if kind == "vmess-ts" {
+                        // (inside the sealed request header: the token is judged when the header it authenticates is complete; a
+                        // first body chunk that trails behind an accepted header is not a freshness matter)
+                        *g.pick(&[16usize, 16, 17, 34, 42, 43])
+                    } else {
+                        let fixed_end = key_len(&c.cipher) + 16 * c.client_keys.len().saturating_sub(1) + 11 + 16;
+                        *g.pick(&[fixed_end, fixed_end, fixed_end + 1, wire.len() - 1]).min(&(wire.len() - 1))
+                    };
+                    let got = match TcpStream::connect(server_addr()).await {
+                        Ok(mut s) => {
+                            s.set_own_styles(0, 0);
+                            s.set_peer_read_style(0);
+                            let _ = s.write_all(&wire[..begin]).await;
+                            tokio::time::sleep(Duration::from_secs(stall as u64)).await;
+                            let _ = s.write_all(&wire[begin..]).await;
+                            tokio::time::sleep(Duration::from_millis(300)).await;
+                            let hit = log.lock().unwrap().conns.iter().any(|c| c.windows(tag.len()).any(|w| w == tag));
+                            drop(s);
+                            hit
+                        }
+                        Err(_) => false,
+                    };
+                    if begin_ok == end_ok || begin_ok {
+                        obs.push((format!("timestamp offset {delta:+} s when sealed and begun ({begin} of {} bytes), completed {stall} s later (offset {:+} s when complete)", wire.len(), delta - stall), begin_ok && end_ok, got));
+                    }
+                } else {
                 let got = if idle == 0 {
                     present(&wire, tag, &log).await
                 } else {
@@ -236,6 +271,7 @@ pub fn execute_c10(plan: &Plan) -> Outcome {
                     }
                 };
                 obs.push((format!("timestamp offset {delta:+} s when sealed, type byte {type_byte}, presented after {idle} s on a connection opened when it was sealed (offset {age:+} s when read)"), expect, got));
+                }
                 // whatever the probe was, a fresh correct handshake is served afterwards
                 let tag2 = b"probe-control-tag";
                 let (_, wire) = RefClient::start(&c, &mut g, unix_now(), &addr, tag2, &ClientOpts::default());
@@ -403,7 +439,18 @@ pub fn execute_c10(plan: &Plan) -> Outcome {
                             if !sent && srv.payload.len() >= 22 {
                                 sent = true;
                                 if let Some(w) = srv.write(&mut g, b"answer-from-reference-server", &sopts) {
-                                    let _ = s.write_all(&w).await;
+                                    // in one segment, or cut behind the part a Shadowsocks 2022 client must get in one read and
+                                    // at drawn places after it (a response is judged the same however it is cut)
+                                    let fixed_end = if is_2022(&c.cipher) { 2 * key_len(&c.cipher) + 11 + 16 } else { 1 };
+                                    let cuts = seg_cuts(plan.extra["seg_first"].as_u64().unwrap_or(0), plan.extra["seg_draw"].as_u64().unwrap_or(0) >> (control as u32 * 9), fixed_end, w.len());
+                                    let mut from = 0;
+                                    for &k in cuts.iter().chain(std::iter::once(&w.len())) {
+                                        if k > from {
+                                            let _ = s.write_all(&w[from..k]).await;
+                                            tokio::time::sleep(Duration::from_millis(40)).await;
+                                            from = k;
+                                        }
+                                    }
                                 }
                                 if let Some(w) = srv.write(&mut g, b"-second-part", &sopts) {
                                     let _ = s.write_all(&w).await;
